@@ -3,14 +3,16 @@ use crate::mon::{Ctx, Outcome};
 pub mod c01;
 pub mod c02;
 pub mod c03;
+pub mod c04;
 
-pub const ALL: &[&str] = &["C01", "C02", "C03"];
+pub const ALL: &[&str] = &["C01", "C02", "C03", "C04"];
 
 pub fn run(ctx: &Ctx) -> Option<Outcome> {
     match ctx.prop.as_str() {
         "C01" => Some(c01::run(ctx)),
         "C02" => Some(c02::run(ctx)),
         "C03" => Some(c03::run(ctx)),
+        "C04" => Some(c04::run(ctx)),
         _ => None,
     }
 }
